@@ -17,6 +17,18 @@ CLAIMED = {
          'Trusted: Coq kernel + vm_compute; SQLite rollback and Python sqlite3 transaction handling (modelled by Txn.v, '
          'validated by trace shape and fault enumeration); PRAGMA synchronous/journal_mode (crash safety is outside the property).',
          'DESIGN.md section 5, C06'),
+ 'C07': ('Coq proof over a Gallina model of wn.project.iterpackages on an abstract file tree with ideal codecs (gzip/xz/tar as '
+         'constructors); differential correspondence on generated trees built as real files; route equivalence on the real code '
+         'by comparing canonical database content',
+         'Partial. Theorems (closed under the global context): every route of the property (plain file, .gz, .xz, package directory '
+         'with extra files, tar/tar.gz/tar.xz of the file or the package, tar of the gzipped file) yields exactly the one resource; '
+         'an archive behaves as its single member and is rejected otherwise; a collection yields the packages of its package '
+         'directories; something that is neither WN-LMF nor an ILI file is rejected. Decompression, tar extraction, temporary '
+         'files, listing order, "adding again changes nothing", "an orphan extension is skipped" and "the input is not modified" '
+         'are runtime behaviour decided by the harness (file hashes, deep copies, canonical content per route).',
+         'Trusted: Coq kernel + vm_compute; gzip/xz/tar codecs and the file system (ideal in the model); lmf header check is a '
+         'parameter of the model (its own model is Model/Lmf.v read_header).',
+         'DESIGN.md section 5, C07'),
  'C08': ('Coq proof over a Gallina model of find_lexicons (glob matcher for * and ?, specifier splitting, most-recent rule, '
          'language filter) against an independently written "documented selection"; differential correspondence on databases '
          'built by add/remove histories',
